@@ -102,7 +102,7 @@ def dep5_case(draw):
         # (among them expressions that a simplifier would reorder, shorten or absorb: they have to arrive as they are)
         lic = draw(st.sampled_from(["MIT", "GPL-3.0-or-later", "Apache-2.0 OR MIT", f"LicenseRef-p{k}", "GPL-2.0-only WITH Classpath-exception-2.0",
                                     "MIT OR 0BSD", "CC0-1.0 AND (CC0-1.0 OR Apache-2.0)", "ISC OR ISC", "(MIT AND ISC) OR MIT"]))
-        para = {"files": pats, "cop": cop, "lic": lic, "body": draw(st.booleans()), "comment": draw(st.sampled_from([None, None, "A comment.", "Two\n lines"])),
+        para = {"files": pats, "cop": cop, "lic": lic, "folded": draw(st.integers(0, 3)) == 0, "body": draw(st.booleans()), "comment": draw(st.sampled_from([None, None, "A comment.", "Two\n lines"])),
                 # layout of the continuation lines of the Copyright field: uneven indentation, trailing blanks
                 "indent": draw(st.lists(st.sampled_from([" ", "  ", "      ", "\t", " \t"]), min_size=3, max_size=3)),
                 "trail": draw(st.lists(st.sampled_from(["", "", " ", "  "]), min_size=3, max_size=3))}
@@ -147,7 +147,12 @@ def render_dep5(c):
             out.append(" " + f)
         ind = p.get("indent") or ["  "] * 3
         trl = p.get("trail") or [""] * 3
-        out.append("Copyright: " + p["cop"][0] + (trl[0] if len(p["cop"]) > 1 else ""))
+        if p.get("folded"):
+            # the whole field on continuation lines ('Copyright:' with nothing after the colon)
+            out.append("Copyright:")
+            out.append(ind[0] + p["cop"][0] + (trl[0] if len(p["cop"]) > 1 else ""))
+        else:
+            out.append("Copyright: " + p["cop"][0] + (trl[0] if len(p["cop"]) > 1 else ""))
         for n, x in enumerate(p["cop"][1:]):
             out.append(ind[n % 3] + x + (trl[(n + 1) % 3] if n + 2 < len(p["cop"]) else ""))
         out.append("License: " + p["lic"])
